@@ -439,7 +439,8 @@ def impl_scripts(case):
     return {"events": events, "final": final, "identity": identity,
             "probe_parents": [probe_parents.get(i + 1, "missing") for i in range(n_probes)],
             "action_parents": sorted([h, p] for h, p in action_parents.items()),
-            "twin_rets": rets(tenv.events), "twin_identity": tenv.identity}
+            "twin_rets": rets(tenv.events), "twin_identity": tenv.identity,
+            "twin_ops": [[e[1], e[2], e[3]] for e in tenv.events if e[0] == "op" and e[1] is not None]}
 
 
 # ----------------------------------------------------------------------- model
@@ -633,6 +634,12 @@ def oracle_scripts(case, obs):
                 return ("resumption %d (generator %d resumed by %s): decorated gives %r, undecorated gives %r"
                         % (k, a[1], _w(a[0]), a[2], b[2]))
         return "decorated run has %d resumptions, undecorated %d" % (len(rets), len(obs["twin_rets"]))
+    ops = [[e[1], e[2], e[3]] for e in events if e[0] == "op" and e[1] is not None]
+    if ops != obs["twin_ops"]:
+        for k, (a, b) in enumerate(zip(ops + [None], obs["twin_ops"] + [None])):
+            if a != b:
+                return ("step %d executed by the generator bodies: decorated %r, undecorated %r "
+                        "(a send/throw/close did not reach the body unchanged)" % (k, a, b))
     for e in events:
         if e[0] == "ret" and e[3][0] == "raise" and isinstance(e[3][1], list) and e[3][1][0] == "other":
             return "unexpected exception crossing the wrapper: %r" % (e[3][1],)
@@ -710,7 +717,7 @@ def shrink_scripts(case):
 FAMILIES = [
     Family("scripts", gen_scripts, impl_scripts, model_scripts, model_obs_scripts, oracle_scripts,
            nontrivial_scripts, imports=["Model.Generators"], project=project_scripts, corpus=CORPUS,
-           shrink=shrink_scripts, describe=describe_scripts, shard=250, coq_shard=250),
+           shrink=shrink_scripts, describe=describe_scripts, shard=100, coq_shard=30),
 ]
 
 LEVEL_TEXT = ("Coq theorems about the wrapper trampoline for all generator bodies and all driver scripts: own context, "
